@@ -50,6 +50,7 @@ NoFault == [k |-> "none", at |-> 0]
    script  sequence of "buf" (operator()(Buffer&&) with one object), "item" (operator()(Item)), "big" (an item
            that does not fit into the internal buffer), "flush", "close"; the destructor always follows
    hdr,trl the format writes a header string / a trailer string (XML: both, PBF: header, OPL: none)
+   defer   the encoder collects the objects and hands over one block in write_end (PBF with less than a block full)
    comp    "plain" | "gzip" | "bzip2";  fsync  BOOLEAN
    fault   [k, at]: none | write@unit offset | fsync | close@(1: first descriptor closed, 2: second, gzip only)
            | cwrite@n (compressor throws in its n-th write) | cclose (compressor throws in close)
@@ -83,7 +84,7 @@ Content(c) == IdsUpTo(c.script, 1, IF FirstClose(c.script, 1) = 0 THEN Len(c.scr
 -----------------------------------------------------------------------------
 (* A-layer: sequential specification.  st = [status, fut, ibuf, hdr, nblk, nchunk, pushed, pok] *)
 
-St0 == [status |-> "okay", fut |-> TRUE, ibuf |-> 0, hdr |-> FALSE, nblk |-> 0, nchunk |-> 0, pushed |-> 0, pok |-> FALSE]
+St0 == [status |-> "okay", fut |-> TRUE, ibuf |-> 0, hdr |-> FALSE, nblk |-> 0, nchunk |-> 0, pushed |-> 0, acc |-> 0, pok |-> FALSE]
 
 (* could the asynchronous fault already have happened when `pushed` units in `nchunk` strings / `nblk` blocks are handed over? *)
 MayTrigger(c, st) ==
@@ -106,7 +107,8 @@ HeaderA(c, st) == IF st.hdr THEN [st |-> st, thrown |-> "none"]
                   ELSE IF c.fault.k = "ehdr" THEN [st |-> st, thrown |-> "sync"]
                   ELSE [st |-> [st EXCEPT !.hdr = TRUE, !.pushed = @ + (IF c.hdr THEN 1 ELSE 0), !.nchunk = @ + (IF c.hdr THEN 1 ELSE 0)],
                         thrown |-> "none"]
-BlockA(c, st, nobj) == IF c.fault.k = "ebuf" /\ c.fault.at = st.nblk + 1 THEN [st |-> st, thrown |-> "sync"]
+BlockA(c, st, nobj) == IF c.defer THEN [st |-> [st EXCEPT !.acc = @ + nobj], thrown |-> "none"]
+                       ELSE IF c.fault.k = "ebuf" /\ c.fault.at = st.nblk + 1 THEN [st |-> st, thrown |-> "sync"]
                        ELSE [st |-> [st EXCEPT !.nblk = @ + 1, !.nchunk = @ + 1, !.pushed = @ + 2 * nobj], thrown |-> "none"]
 IBufA(c, st) == IF st.ibuf = 0 THEN [st |-> st, thrown |-> "none"]
                 ELSE BlockA(c, [st EXCEPT !.ibuf = 0], st.ibuf)
@@ -131,7 +133,9 @@ CloseA(c, st) ==
   ELSE LET b == IBufA(c, h.st) IN
        IF b.thrown # "none" THEN b
        ELSE IF c.fault.k = "eend" THEN [st |-> b.st, thrown |-> "sync"]
-       ELSE [st |-> [b.st EXCEPT !.pushed = @ + (IF c.trl THEN 1 ELSE 0), !.nchunk = @ + (IF c.trl THEN 1 ELSE 0)], thrown |-> "none"]
+       ELSE LET d == IF c.defer /\ b.st.acc > 0                                  \* write_end: the collected block
+                     THEN [b.st EXCEPT !.nblk = @ + 1, !.nchunk = @ + 1, !.pushed = @ + 2 * b.st.acc, !.acc = 0] ELSE b.st IN
+            [st |-> [d EXCEPT !.pushed = @ + (IF c.trl THEN 1 ELSE 0), !.nchunk = @ + (IF c.trl THEN 1 ELSE 0)], thrown |-> "none"]
 
 RECURSIVE Walk(_, _, _, _)
 Walk(c, p, i, st) ==
@@ -150,6 +154,18 @@ Walk(c, p, i, st) ==
     ELSE LET r == DataA(c, p, i, op, st) IN
          IF r.thrown = "none" THEN Then("ok", r.st)
          ELSE Then("exc", [r.st EXCEPT !.status = "error", !.fut = IF r.thrown = "pipe" THEN FALSE ELSE @])
+
+(* the blocks (object ids) handed to write_buffer when nothing fails, up to the first close() or user-thread exception *)
+RECURSIVE BlocksAt(_, _, _)
+BlocksAt(c, i, ibuf) ==
+  LET fl == IF ibuf = <<>> THEN <<>> ELSE <<ibuf>> IN
+  IF i > Len(c.script) THEN fl
+  ELSE LET op == c.script[i] IN
+    CASE op = "buf"   -> fl \o <<<<i>>>> \o BlocksAt(c, i + 1, <<>>)
+      [] op = "item"  -> IF Len(ibuf) < c.cap THEN BlocksAt(c, i + 1, Append(ibuf, i)) ELSE <<ibuf>> \o BlocksAt(c, i + 1, <<i>>)
+      [] op = "flush" -> fl \o BlocksAt(c, i + 1, <<>>)
+      [] OTHER        -> fl
+Blocks(c) == IF c.defer THEN <<>> ELSE BlocksAt(c, 1, <<>>)
 
 Positions(c) == {p \in 0..Len(c.script) : Walk(c, p, 1, St0).pok}
 Allowed(c) == {Walk(c, p, 1, St0).log : p \in Positions(c)}
@@ -174,7 +190,7 @@ Init == /\ cfg \in Configs
         /\ q = [items |-> <<>>, inUse |-> TRUE]
         /\ futs = <<>>
         /\ us = [pc |-> "idle", i |-> 1, todo |-> <<>>, status |-> "okay", fut |-> TRUE, ibuf |-> <<>>, hdr |-> FALSE,
-                 nblk |-> 0, push |-> 0, indtor |-> FALSE, size |-> -1]
+                 nblk |-> 0, acc |-> <<>>, push |-> 0, indtor |-> FALSE, size |-> -1]
         /\ wt = [pc |-> "loop", cur |-> 0, nxt |-> "none"]
         /\ cs = [disk |-> <<>>, pend |-> <<>>, fds |-> IF cfg.comp = "gzip" THEN {"fd", "dup"} ELSE {"fd"},
                  live |-> TRUE, started |-> FALSE, size |-> 0, nw |-> 0]
@@ -229,7 +245,8 @@ UChk == /\ Op("chk")                                                            
 
 Block(ids, us2) ==                                                                   \* m_output->write_buffer(...)
   LET n == us.nblk + 1 IN
-  IF cfg.fault.k = "ebuf" /\ cfg.fault.at = n THEN /\ Throw(us2) /\ futs' = futs /\ obs' = [obs EXCEPT !.syncx = TRUE]
+  IF cfg.defer THEN /\ Pop([us2 EXCEPT !.acc = @ \o ids]) /\ futs' = futs /\ obs' = obs
+  ELSE IF cfg.fault.k = "ebuf" /\ cfg.fault.at = n THEN /\ Throw(us2) /\ futs' = futs /\ obs' = [obs EXCEPT !.syncx = TRUE]
   ELSE /\ PushNew(Fut("data", EncIds(ids), ~cfg.pool, cfg.fault.k = "epool" /\ cfg.fault.at = n), [us2 EXCEPT !.nblk = n])
        /\ obs' = obs
 UBlkI == /\ Op("blkI")
@@ -248,7 +265,9 @@ UThrow == /\ Op("throw")                                                        
 UEnd == /\ Op("end")                                                                 \* write_end()
         /\ IF cfg.fault.k = "eend" THEN /\ Throw(us) /\ futs' = futs /\ obs' = [obs EXCEPT !.syncx = TRUE]
            ELSE /\ obs' = obs
-                /\ IF cfg.trl THEN PushNew(Fut("data", <<TRL>>, TRUE, FALSE), us)
+                /\ IF cfg.defer /\ us.acc # <<>>
+                   THEN PushNew(Fut("data", EncIds(us.acc), ~cfg.pool, FALSE), [us EXCEPT !.acc = <<>>, !.nblk = @ + 1])
+                   ELSE IF cfg.trl THEN PushNew(Fut("data", <<TRL>>, TRUE, FALSE), us)
                    ELSE /\ Pop(us) /\ futs' = futs
         /\ UNCHANGED <<cfg, allowed, q, wt, cs, promise, notif, clog>>
 UClosed == /\ Op("closed")
@@ -422,7 +441,8 @@ FutureReadOnce == obs.gets <= 1 /\ (notif => promise.k # "val")
 NoThreadLeft == us.pc = "gone" => wt.pc = "done"
 NoFdLeft == us.pc = "gone" => cs.fds = {}
 QueueBound == Len(q.items) <= cfg.maxQ
-TypeOK == /\ us.status \in {"okay", "error", "closed"} /\ promise.k \in {"unset", "val", "exc"}
+TypeOK == /\ ~(cfg.defer /\ cfg.trl)
+          /\ us.status \in {"okay", "error", "closed"} /\ promise.k \in {"unset", "val", "exc"}
           /\ \A i \in 1..Len(q.items) : q.items[i] \in 1..Len(futs)
 
 Termination == <>AllDone
